@@ -160,7 +160,7 @@ func c06Err(family, msg string) string {
 func genC06(c *Ctx) error {
 	c.ShardSize = 10
 	c.Notes["rule"] = "one deployed token chaincode (TT) next to a second channel (VT); issuer, fee setter, admin and two users. Sequences of 25-45 operations drawn from the union: emit, burn, transfer (fee unset / in TT / in VT, fee address = a user, also the sender), buyToken / buyBack, lock / unlock of token and allowed balances, channelTransferByCustomer / ByAdmin with createCCTransferTo / cancel / commit / delete, swapBegin (both routes) / cancel / robot answer / robot done / user done, the same for multi-swaps (1-3 assets, duplicates, three-part tickers), forced transferBalance by the admin - with amounts 0, 1, balance-1, exactly the balance, balance+1, 2^64+x, 2^256 and random ones, all account pairs incl. self. After every step: error class, every balance of every kind, the total emission in the token metadata, all swap / multi-swap / transfer records. Non-trivial: >= 4 operation families used and >= 8 successful steps. Half of the token operations share their batch with a second, successful transaction that writes nothing (what a rejected operation wrote before it failed must not surface through a neighbour)."
-	n := c.N(60, 1500)
+	n := c.N(100, 1500)
 	for i := 0; i < n; i++ {
 		if err := c06Case(c); err != nil {
 			return err
@@ -517,6 +517,11 @@ func c06Case(c *Ctx) error {
 				term := fmt.Sprintf("USwap (SAnswer %d (%s))", cw.idN(id), cw.swapTerm(s))
 				msg := cw.swAnswer("tt", s)
 				record("swap", term, msg, "None")
+				if msg == "" && rng.Intn(4) == 0 {
+					// the platform cancels the answered copy (nothing is refunded here for a direct swap: the escrow is at the origin)
+					cmsg := cw.swCancel("tt", []*Account{u1, u2}[rng.Intn(2)], id)
+					record("swap", fmt.Sprintf("USwap (SCancel %d)", cw.idN(id)), cmsg, "None")
+				}
 			case 4:
 				if rec := cw.swapRec("tt", id); rec != nil && string(rec.GetCreator()) == "0000" {
 					continue // the robot closes only this channel's own swaps
